@@ -119,7 +119,15 @@ Definition client_left_first (e : list oevent) : bool :=
      get every emitted message followed by the normal close
    4 the client left first and a running request was not told to stop
    5 all services have ended and all clients are gone or closed, yet server
-     goroutines of these sessions are still there (blocked) *)
+     goroutines of these sessions are still there (blocked)
+   6 a session's first (valid) request was never handed to the service although
+     the server process is alive: the server does not serve this client *)
+Definition served (t : strace) : bool :=
+  match first t with
+  | MReq _ => match handed_out (evs t) with [] => false | _ :: _ => true end
+  | MBad => true
+  end.
+
 Definition check_stream (dead : bool) (t : strace) : list nat :=
   let e := evs t in
   let chans := nodup Nat.eq_dec (recv_chans e ++ handed_out e) in
@@ -131,7 +139,8 @@ Definition check_stream (dead : bool) (t : strace) : list nat :=
    else []) ++
   (if client_left_first e then
      clause 4 (forallb (fun k => stop_seen k e) (seq 0 (length (handed_out e))))
-   else []).
+   else []) ++
+  clause 6 (served t).
 
 Definition all_over (t : strace) : bool :=
   let e := evs t in
